@@ -17,6 +17,8 @@ CLAIM = (
     "(4) contradictory bounds become errors, never a contract violation (LenConstraint precondition, shared with C02); (5) only the "
     "class's own invariants are read (`invariant.specified_for is not X: continue` in all five inference loops); (6) errors of the inference "
     "are not dropped (ERR1-3 over infer_for_schema)."
+    " SKIPS: the verification / resolution loops in scope have no more `continue`, `break` or in-loop `return` statements than the reference "
+    "read on the unchanged tree (baselines/skips.json): a new skip means elements that were examined are no longer examined."
 )
 NOTE = (
     "Oracle: integer arithmetic on lengths (trusted, 12 rows). Not decided: that every accepted invariant form is recognised, and the "
@@ -56,6 +58,13 @@ def run(ctx) -> None:
                 stack.check_stack_order(ctx, f, "STACK-ORDER")
                 err.check_err12(ctx, f, "ERR1", "ERR1v", "ERR2")
                 err.check_err3(ctx, f, "ERR3")
+    ctx.rule("SKIPS", "verification/resolution loops have no more continue/break/return-in-loop statements than the reference read on the unchanged tree", floor=10)
+    from ..rules import skips as _skips
+    _base = _skips.load_baseline()
+    for _m in ctx.p.modules.values():
+        if _m.name.startswith("aas_core_codegen.infer_for_schema"):
+            for _f in _m.functions.values():
+                _skips.check_skips(ctx, _f, "SKIPS", _base)
 
 
 def _check_bounds(ctx) -> None:
